@@ -77,6 +77,9 @@ impl Crdt for MV {
         s.reset_remove(c);
         Some(())
     }
+    fn own_clock(s: &Self::S) -> Option<Clock> {
+        Some(s.read().add_clock)
+    }
     /// the hand-written `PartialEq` may panic (`assert_eq!(num_found, 1)`); the machine prints `panic`
     fn eq(a: &Self::S, b: &Self::S) -> Option<bool> {
         Some(a == b)
